@@ -629,10 +629,11 @@ void judge_ctor(const Row<U>& r, U dv, std::vector<Mismatch>& out)
     auto nt = [&] { return sig_of(r, "null-test"); };
     auto se = [&] { return sig_of(r, "equality"); };
     auto so = [&] { return sig_of(r, "ordering"); };
-    expect_val(out, nt, where, "*T() (default-constructed)", c.dflt, r.null);
-    expect_val(out, nt, where, "*T(nullopt)", c.n_direct, r.null);
-    expect_val(out, nt, where, "*(T x = nullopt)", c.n_copy, r.null);
-    expect_val(out, nt, where, "*(x = nullopt)", c.n_assign, r.null);
+    // "Constructs null object": the stored value is null by the reference definition
+    expect_flag(out, nt, where, "is_null(*T()) (default-constructed)", ref_null(r, c.dflt), true);
+    expect_flag(out, nt, where, "is_null(*T(nullopt))", ref_null(r, c.n_direct), true);
+    expect_flag(out, nt, where, "is_null(*(T x = nullopt))", ref_null(r, c.n_copy), true);
+    expect_flag(out, nt, where, "is_null(*(x = nullopt))", ref_null(r, c.n_assign), true);
     expect_flag(out, nt, where, "T().has_value()", c.dflt_has, false);
     expect_flag(out, nt, where, "bool(T())", c.dflt_bool, false);
     expect_flag(out, nt, where, "T(nullopt).has_value()", c.n_has, false);
